@@ -166,7 +166,8 @@ def run_unit(verif, name, pid, tier, scratch):
                 Bm = U.build(udir, REPO, "verify", mutate=(m["item"], m["from"], m["to"]))
                 Rm = VR.run(Bm.text, scratch, name + "_mut", Bm)
                 O.cmds.append(Rm.cmd); O.smt_ms += Rm.smt_ms
-                rec["by"] = sorted({d.name(name) for d in Rm.diags} - kf_names)[:6]
+                # only obligations that hold on the unmutated text count (known findings and clauses failing anyway do not)
+                rec["by"] = sorted({d.name(name) for d in Rm.diags} - kf_names - {d.name(name) for d in R.diags})[:6]
                 rec["killed"] = bool(rec["by"]) and not Rm.compile_errors and not Rm.tool_failure
                 if Rm.compile_errors: rec["note"] = "mutant did not compile: " + Rm.compile_errors[0].message
             except U.UnitError as e:
